@@ -849,8 +849,8 @@ def run_check(prop, tier, want, budgets=False):
             # depth-1 expressions go through every context; in the quick tier each sampled deeper one through three of them (rotating)
             use = ctxs if (j < ndepth1 or tier != "quick" or len(ctxs) <= 3) else [ctxs[(j + d) % len(ctxs)] for d in (0, 1, 3)]
             for ctx in use:
-                if ctx == "t_port" and tier == "quick" and (j % 3 or j >= ndepth1):
-                    continue        # three indeterminates: 125-point tables; the quick tier takes every third depth-1 expression
+                if ctx == "t_port" and ((tier == "quick" and (j % 3 or j >= ndepth1)) or (tier != "quick" and (P != 5 or j >= ndepth1))):
+                    continue        # three indeterminates: 125-point tables over F_5; quick: every third depth-1 expression, thorough: all depth-1 ones
                 progs.append(expr_program(ec, ctx, P))
                 if ctx == "t_port":
                     k3.add(len(progs) - 1)
